@@ -357,7 +357,7 @@ package verify
 //@   ensures[iff] err == nil <==> collateralNotExpired(collateral, options)
 
 //@ func verifyCollateral(options) (err)
-//@   requires options != nil && options.Now != nil
+//@   requires options != nil && (options.collateral != nil ==> options.Now != nil)
 //@   ensures[accept] err == nil ==> collateralPresent(options.collateral, options) && collateralNotExpired(options.collateral, options)
 
 //@ define collateralOK(o) = collateralPresent(o.collateral, o) && collateralNotExpired(o.collateral, o) && tcbInfoOK(o) && qeIdentityDocOK(o)
@@ -518,7 +518,8 @@ package verify
 //@   ensures[configured-pool] err == nil && nBundles(rot) > 0 ==> r.TrustedRoots != nil && *r.TrustedRoots == poolPrefix(addr(rot), nBundles(rot))
 
 //@ func SupportedTcbLevelsFromCollateral(quote, options) (tcb, qe, err)
-//@   requires options != nil ==> options.Now != nil
+//   (options.collateral is unexported: only TdxQuote sets it, and it sets options.Now with it)
+//@   requires options != nil && options.collateral != nil ==> options.Now != nil
 //@   ensures[no-empty-level] err == nil && typeis(quote, "*tdx.QuoteV4") ==>
 //@ |     !(forall j :: 0 <= j && j < len(options.collateral.TdxTcbInfo.TcbInfo.TcbLevels) ==> !lvlMatch(options.collateral.TdxTcbInfo.TcbInfo.TcbLevels[j],
 //@ |          as(quote, "*tdx.QuoteV4").TdQuoteBody.TeeTcbSvn, options.pckCertExtensions.TCB.PCESvn, options.pckCertExtensions.TCB.CPUSvnComponents))
